@@ -1114,7 +1114,56 @@ def _pick_cell_radius(rng, ctx, mcl):
     return fits, "fits"
 
 
+def case_many_atoms(rng, ctx):
+    """More atoms than 15 bits count - spread over many cells, or all of them inside one cell."""
+    n = int(rng.choice([32768, 32769, 40000]))
+    mode = str(rng.choice(["spread", "one_cell"]))
+    if mode == "spread":
+        P = rng.uniform(0, 100, size=(n, 3)).astype(np.float32)
+        cs = 5.0
+    else:
+        P = (rng.uniform(-1, 1, size=(n, 3)) + 50).astype(np.float32)
+        cs = 10.0
+    ctx.log({"stratum": "large_ratio", "many_atoms": n, "mode": mode, "cell_size": cs})
+    ctx.op("many_atoms_" + mode)
+    ctx.mark_nontrivial()
+    ctx.state(("many_atoms", mode, n))
+    cl = CellList(P, cs)
+    P64 = P.astype(np.float64)
+    for _ in range(3):
+        q = P64[int(rng.integers(n))] + rng.normal(size=3) * 0.3
+        d = np.sqrt(((P64 - q) ** 2).sum(axis=1))
+        order = np.argsort(d)
+        ds = d[order]
+        # a radius in a gap between two consecutive distances that is wide enough to be decided in float32
+        k0 = int(rng.integers(5, 400))
+        k = next((k_ for k_ in range(k0, min(k0 + 2000, n - 1)) if ds[k_ + 1] - ds[k_] > 1e-3 * (1.0 + ds[k_])), None)
+        if k is None:
+            ctx.note("many_atoms_no_decidable_radius")
+            continue
+        r = float(0.5 * (ds[k] + ds[k + 1]))
+        want = np.zeros(n, dtype=bool)
+        want[order[: k + 1]] = True
+        as_mask = bool(rng.random() < 0.5)
+        ctx.op("get_atoms.many_atoms")
+        ctx.oracle("get_atoms_exact")
+        res = cl.get_atoms(q.astype(np.float32), r, as_mask=as_mask)
+        if as_mask:
+            got = np.asarray(res, dtype=bool)
+            ok = got.shape == (n,) and np.array_equal(got, want)
+        else:
+            ids = np.asarray(res)
+            ids = ids[ids != -1]
+            ok = len(ids) == len(set(ids.tolist())) and ids.min(initial=0) >= 0 and ids.max(initial=0) < n and \
+                np.array_equal(np.sort(ids), np.nonzero(want)[0])
+        if not ok:
+            ctx.fail("get_atoms_exact", "get_atoms over %d atoms (%s), radius %.6g, as_mask=%s: result differs from the %d atoms within the radius"
+                     % (n, mode, r, as_mask, k + 1))
+
+
 def case_large_ratio(rng, ctx):
+    if ctx.index % 60 == 59:
+        return case_many_atoms(rng, ctx)
     cfg, P, cs, mcl = _large_config(rng)
     n = P.shape[0]
     R, rclass = _pick_cell_radius(rng, ctx, mcl)
